@@ -81,7 +81,7 @@ CHECKS = {
         text=("Proof: C10_sound (a checked non-empty range never wraps and lies in one aligned block, for every start and every size_t extent), "
               "C10_sound_region/_outside (wholly inside / wholly outside a region), C10_complete(_region) (every non-empty in-block request passes), "
               "C10_ops_memset/memcpy, C10_too_large, C10_null_start, C10_counted and C10_safe_pointer (element-counted variants, no side condition after the repairs), "
-              "C10_grant_untrusted_allocator (copy_memory_or_grant_access writes only inside the region whatever the allocator inside the sandbox returns; op `grantf`). "
+              "C10_grant_untrusted_allocator (copy_memory_or_grant_access writes only inside the region whatever the allocator inside the sandbox returns; op `grantf`); ops `grantg`/`denyg` on a backend flavour that declares can_grant_deny_access and grants, refuses with the caller's pointer or refuses with null. "
               "Tied to the code by ~6k-10k boundary ops over all nine operations with byte diffs of both regions and the application arena. "
               "Four genuine defects were found by this check and repaired (fix: commits bd117b1, 2d57aba, 8abe039, 66ca6e3)."),
         note=NOTE + "For application-side ranges 'outside' is judged per 2^16-aligned block (what a mask-based backend can tell)."),
